@@ -244,6 +244,13 @@ class CIAReader(TypeReaderCryptoBase):
 
             curr_offset += record.size
 
+    def close(self):
+        if not self.closed:
+            # close the readers of the contents, so files opened from them are closed too
+            for content in getattr(self, 'contents', {}).values():
+                content.close()
+        super().close()
+
     def __repr__(self):
         info = [('title_id', self.tmd.title_id)]
         try:
